@@ -190,7 +190,8 @@ func mintAll() {
 // a template message: template 256 = (sourceIPv4Address, destinationIPv4Address);
 // a data message: one data record (a, b) of that template.
 // seqField is what goes into the header's sequence-number field.
-func buildMsg(domain, seqField uint32, template bool, a, b uint32) []byte {
+// nrec > 1 repeats the data record: message sizes up to 8*nrec+20 bytes (past the collector reader's 4096-byte buffer).
+func buildMsg(domain, seqField uint32, template bool, a, b uint32, nrec int) []byte {
 	if template {
 		m := make([]byte, 32)
 		binary.BigEndian.PutUint16(m[0:], 10)
@@ -208,17 +209,48 @@ func buildMsg(domain, seqField uint32, template bool, a, b uint32) []byte {
 		binary.BigEndian.PutUint16(m[30:], 4)
 		return m
 	}
-	m := make([]byte, 28)
+	if nrec < 1 {
+		nrec = 1
+	}
+	size := 20 + 8*nrec
+	m := make([]byte, size)
 	binary.BigEndian.PutUint16(m[0:], 10)
-	binary.BigEndian.PutUint16(m[2:], 28)
+	binary.BigEndian.PutUint16(m[2:], uint16(size))
 	binary.BigEndian.PutUint32(m[4:], uint32(time.Now().Unix()))
 	binary.BigEndian.PutUint32(m[8:], seqField)
 	binary.BigEndian.PutUint32(m[12:], domain)
 	binary.BigEndian.PutUint16(m[16:], 256)
-	binary.BigEndian.PutUint16(m[18:], 12)
-	binary.BigEndian.PutUint32(m[20:], a)
-	binary.BigEndian.PutUint32(m[24:], b)
+	binary.BigEndian.PutUint16(m[18:], uint16(4+8*nrec))
+	for j := 0; j < nrec; j++ {
+		binary.BigEndian.PutUint32(m[20+8*j:], a)
+		binary.BigEndian.PutUint32(m[24+8*j:], b)
+	}
 	return m
+}
+
+// numRecords is the number of (identical) records data message k of client i carries: 1 in three scenarios out of
+// four; in the others (seed % 4 == 0) every client mixes in messages of 600 records (4820 bytes, larger than the
+// reader's bufio buffer) and, over TCP/TLS, of 5000 records (40020 bytes); UDP datagrams stay below 1300 bytes.
+func (sc *scenario) numRecords(i int, k uint32) int {
+	if sc.seed%4 != 0 {
+		return 1
+	}
+	udp := sc.transport == "udp"
+	switch (uint32(i) + k) % 8 {
+	case 2:
+		if udp {
+			return 150
+		}
+		return 600
+	case 5:
+		if udp {
+			return 40
+		}
+		return 5000
+	case 6:
+		return 130
+	}
+	return 1
 }
 
 const sharedDomain = 1
@@ -230,10 +262,10 @@ const sharedDomain = 1
 func (sc *scenario) clientMsg(i int, k uint32) []byte {
 	if sc.shared > 0 {
 		id := uint32(i + 1)
-		return buildMsg(sharedDomain, id<<16|k, k%uint32(sc.shared) == 0, id, k)
+		return buildMsg(sharedDomain, id<<16|k, k%uint32(sc.shared) == 0, id, k, sc.numRecords(i, k))
 	}
 	d := uint32(i + 1)
-	return buildMsg(d, k, k == 0, d, k)
+	return buildMsg(d, k, k == 0, d, k, sc.numRecords(i, k))
 }
 
 // identify: which client's message, and which number (what `order` reports)
@@ -262,11 +294,7 @@ func (sc *scenario) payloadOK(m *entities.Message) bool {
 	if isTemplate {
 		return set.GetSetType() == entities.Template && len(recs) == 1 && recs[0].GetTemplateID() == 256
 	}
-	if set.GetSetType() != entities.Data || len(recs) != 1 {
-		return false
-	}
-	els := recs[0].GetOrderedElementList()
-	if len(els) != 2 {
+	if set.GetSetType() != entities.Data || d.domain == 0 || len(recs) != sc.numRecords(int(d.domain)-1, d.seq) {
 		return false
 	}
 	ip4 := func(e entities.InfoElementWithValue) (uint32, bool) {
@@ -276,9 +304,18 @@ func (sc *scenario) payloadOK(m *entities.Message) bool {
 		}
 		return binary.BigEndian.Uint32(ip), true
 	}
-	a, ok1 := ip4(els[0])
-	b, ok2 := ip4(els[1])
-	return ok1 && ok2 && a == d.domain && b == d.seq
+	for _, rec := range recs {
+		els := rec.GetOrderedElementList()
+		if len(els) != 2 {
+			return false
+		}
+		a, ok1 := ip4(els[0])
+		b, ok2 := ip4(els[1])
+		if !(ok1 && ok2 && a == d.domain && b == d.seq) {
+			return false
+		}
+	}
+	return true
 }
 
 // ---- scenario ------------------------------------------------------------------------------------
